@@ -29,6 +29,11 @@ def configs(tier):
             for via in (("direct", "enum") if T == 2 else ("direct",)):
                 cfgs.append({"name": f"{kind}-T{T}-{via}", "kind": kind, "T": T, "W": 3 if q else 4, "LO": 2 if q else 3, "via": via})
     cfgs.append({"name": "split-T2-str", "kind": "split", "T": 2, "W": 2, "LO": 1, "via": "str"})
+    for kind in ("split", "delta"):
+        cfgs.append({"name": f"{kind}-T2-second-loader-same-params", "kind": kind, "T": 2, "W": 2, "LO": 2, "via": "direct", "twice": True})
+        cfgs.append({"name": f"{kind}-T3-second-loader-same-params", "kind": kind, "T": 3, "W": 2, "LO": 1, "via": "direct", "twice": True})
+    # degrees above 256 (identity vs equality of Python ints): concrete probabilities, two topologies
+    cfgs.append({"name": "delta-T2-degrees-around-258", "kind": "delta", "T": 2, "W": 2, "LO": 257, "LO_MIN": 257, "via": "direct", "concrete_probs": [0.5, 0.25]})
     # probability vectors with entries that are exactly 0 (that topology is never used)
     for kind in ("split", "delta"):
         cfgs.append({"name": f"{kind}-T2-zero1", "kind": kind, "T": 2, "W": 3, "LO": 2, "via": "direct", "zeros": [1]})
@@ -49,10 +54,12 @@ def path(ctx, cfg):
     from gcmpy.names.joint_degree_names import JointDegreeNames as JN
 
     T, kind, via = cfg["T"], cfg["kind"], cfg["via"]
-    lo = ctx.fork_int(ctx.int("lo", 0, cfg["LO"]))
+    lo = ctx.fork_int(ctx.int("lo", cfg.get("LO_MIN", 0), cfg["LO"]))
     hi = ctx.fork_int(ctx.int("hi", lo + 1, lo + cfg["W"]))
     zeros = cfg.get("zeros", [])
     probs = [0.0 if i in zeros else ctx.real(f"p{i}", 0, 1, lo_strict=True) for i in range(T)]
+    if cfg.get("concrete_probs"):
+        probs = list(cfg["concrete_probs"])
     ftab = {}
 
     def fp(k):
@@ -76,7 +83,12 @@ def path(ctx, cfg):
         p[JN.JOINT_DEGREE_TYPE] = JointDegreeType(typ) if via == "enum" else typ
         return JointDegreeDistribution.load_joint_degree(p)
 
+    probs_in = list(probs)
     obj = ctx.guard("loader-raised", build)
+    same_in = len(params[JN.PROBS]) == len(probs_in) and all_(eq(a, b) for a, b in zip(params[JN.PROBS], probs_in))
+    ctx.require(same_in, "support", f"{kind} T={T}: the caller's probability list was modified", sig="input-mutated")
+    if cfg.get("twice"):
+        obj = ctx.guard("loader-raised", build)  # a second loader built from the very same parameter objects
     jdd = obj.jdd
     desc = f"{kind} T={T} range=({lo},{hi}) target={target}"
     deg = lambda jd: sum((i + 1) * x for i, x in enumerate(jd))
@@ -106,6 +118,8 @@ def path(ctx, cfg):
     ctx.require(set(jdd) == want_keys, "support", f"{desc}: keys {sorted(jdd)} expected {sorted(want_keys)}", sig="support-keys")
     if set(jdd) != want_keys:
         return
+    if cfg.get("concrete_probs"):
+        return  # concrete float probabilities: only the support is compared (the library's own float sums are already rounded)
     if zeros:
         dead = [jd for jd in want_keys if any(jd[i] > 0 for i in zeros) and (kind == "split" or deg(jd) == target)]
         ctx.require(all_(eq(jdd[jd], 0) for jd in dead), "within-degree-split", f"{desc} probs zero at {zeros}: splits using a zero-probability topology carry mass",
